@@ -3,7 +3,7 @@ import json
 from vlib import common, h263spec as S
 from vlib.common import hexs
 
-THEOREMS = ["C06_sorenson_roundtrip", "C06_baseline_roundtrip", "C06_plus_roundtrip", "C06_plus_inherits", "C06_markers_rejected", "C06_tr_range", "C06_modes_persist"]
+THEOREMS = ["C06_sorenson_roundtrip", "C06_baseline_roundtrip", "C06_plus_roundtrip", "C06_plus_inherits", "C06_markers_rejected", "C06_tr_range", "C06_fields_fit", "C06_modes_persist"]
 BRIDGES = ["BridgeTables", "BridgePHeader", "BridgePPrologue"]
 TRAILER = bytes([0xA5, 0x5A, 0xC3, 0x3C, 0x96, 0x69, 0x0F, 0xF0, 0x55])
 
